@@ -160,14 +160,28 @@ func (w *world) oracle(v *view, o op) []finding {
 			bad("api", "%s reports %d accounts, internal view has %d", name, cnt, len(want))
 		}
 	}
+	// Every returned slice is then edited in place by the "caller" (scribble) and the view is read again: the
+	// pool must be unaffected (aliasing of internal caches shows up here or in the next dump's cache self-check).
 	if p, err := w.pool.Pending(); err != nil {
 		bad("api", "Pending() failed: %v", err)
 	} else {
 		sameLists("Pending()", p, v.pending)
+		w.scribble(p)
 	}
 	cp, cq := w.pool.Content()
 	sameLists("Content().pending", cp, v.pending)
 	sameLists("Content().queued", cq, v.queue)
+	w.scribble(cp)
+	w.scribble(cq)
+	if p, err := w.pool.Pending(); err == nil {
+		sameLists("Pending() after the caller edited its earlier snapshots", p, v.pending)
+		w.scribble(p)
+	}
+	cp, cq = w.pool.Content()
+	sameLists("Content().pending after the caller edited its earlier snapshots", cp, v.pending)
+	sameLists("Content().queued after the caller edited its earlier snapshots", cq, v.queue)
+	w.scribble(cp)
+	w.scribble(cq)
 	if sp, sq := w.pool.Stats(); sp != totalP || sq != totalQ {
 		bad("api", "Stats() = (%d, %d), internal view (%d, %d)", sp, sq, totalP, totalQ)
 	}
